@@ -6,15 +6,16 @@ LEVEL_TEXT = (
     "PROVED (unbounded, z3; for ANY vocabulary - the list / map are symbolic module globals - and id / token sequences of any length): MazeTokenizerModular.decode and MazeTokenizer.decode "
     "are position-wise lookups in the vocabulary list and raise TokenError - nothing else, in particular no IndexError - exactly when some id is outside [0, len), negative ids included; "
     "both encode functions are position-wise lookups in the token-to-id map and raise TokenError exactly when some token is unknown; the two inverse LEMMAS decode(encode(ts)) == ts and "
-    "encode(decode(ids)) == ids follow from the contracts given that the map is the inverse of the list. "
+    "encode(decode(ids)) == ids follow from the contracts given that the map is the inverse of the list. For the legacy tokenizers that premise is itself proved from the real dict comprehension "
+    "(MazeTokenizer._tokenizer_map: for any duplicate-free token list the map contains exactly the list's tokens and sends each to its position). "
     + 'Complete evaluation over the finite domain (labelled bounded, exhaustive=true): all 4096 positions against the published layout restated independently, encode/decode on every token, unknown tokens and out-of-range ids, all legacy modes x max_grid_size 1..50, corner-first ordering permutation and prefix property for all n<m<=50.'
 )
-LEVEL_NOTE = "Trusted: pyvc encoding (strings as z3 strings; the str.split() branch of encode is not modelled: token lists only). That the map IS the inverse of the list and the layout facts are bounded-complete, not proved."
+LEVEL_NOTE = "Trusted: pyvc encoding (strings as z3 strings; the str.split() branch of encode is not modelled: token lists only). That the modular map (a module-level statement of constants.py) is the inverse of the list, that the vocabularies are duplicate-free, and the layout facts are bounded-complete, not proved; a dict comprehension keeps the value of the LAST element producing a key."
 TECHNIQUE = "contract-based deductive verification of the four codec functions and two inverse lemmas (z3, symbolic vocabulary) + complete evaluation of the finite vocabulary facts (bounded, exhaustive)"
 CONTRACT_MODULES = ["contracts.tokcodec"]
 MT = "maze_dataset/tokenization/maze_tokenizer.py"
 L = "/verif/contracts/lemmas_src.py"
-PROVE = [(MT, "MazeTokenizerModular.decode"), (MT, "MazeTokenizerModular.encode"), (MT, "MazeTokenizer.decode"), (MT, "MazeTokenizer.encode"), (L, "modular_decode_encode"), (L, "modular_encode_decode")]
+PROVE = [(MT, "MazeTokenizerModular.decode"), (MT, "MazeTokenizerModular.encode"), (MT, "MazeTokenizer.decode"), (MT, "MazeTokenizer.encode"), (L, "modular_decode_encode"), (L, "modular_encode_decode"), (MT, "MazeTokenizer._tokenizer_map")]
 ASSUMPTIONS = ["token lists (not space-joined strings) for encode; joined_tokens=False for decode"]
 EXPLANATION = "see DESIGN.md C14"
 
